@@ -1367,8 +1367,12 @@ func (enc *VP8Encoder) EncodeFrame() ([]byte, error) {
 		if !doSearch {
 			break // quality mode: single pass
 		}
-		// Rate control: check if we hit the target.
-		if enc.adjustQuantForTarget() {
+		// Rate control: check if we hit the target. After the last allowed
+		// pass the frame just encoded is the one that gets emitted, so the
+		// quantizers must not be retuned any more: they would no longer match
+		// the coefficients (and the source planes would be restored over the
+		// reconstruction).
+		if pass == maxPasses-1 || enc.adjustQuantForTarget() {
 			break
 		}
 	}
